@@ -29,7 +29,7 @@ BUDGET = {
     "quick": {"cases": 12000, "seconds": 90, "shards": 8},
     "thorough": {"cases": 300000, "seconds": 900, "shards": 16},
 }
-REQUIRED_OBS = ["reinsert_after_return", "numpy_scalar_costs", "remove_ok", "update_queued_improve", "insert_full_refused", "remove_empty_refused",
+REQUIRED_OBS = ["reinsert_after_return", "policy_switched_on_emptied_heap", "numpy_scalar_costs", "remove_ok", "update_queued_improve", "insert_full_refused", "remove_empty_refused",
                 "update_white_inserts", "tie_at_remove", "drained_heaps", "policy_via_setter", "continued_on_deepcopy", "capacity>=256", "exhaustive_sequences", "live_removes", "live_decrease_keys"]
 MIN_NONTRIVIAL = 200
 
@@ -110,6 +110,13 @@ def run_ops(size, policy, ops, res=None, drain=True, via_setter=False, cost_type
             removed_set.discard(p)
             n_reins += 1
             res.see("reinsert_after_return")
+        elif kind == "policy":                 # the policy is switched through the public setter while the (used) heap is empty
+            if queued:
+                return res.reject("illegal-sequence")
+            policy = op[1]
+            h.policy = policy
+            better = (lambda a, b: a < b) if policy == "min" else (lambda a, b: a > b)
+            res.see("policy_switched_on_emptied_heap")
         elif kind == "upd":                    # h.update(p, v)
             _, p, v = op
             if p in removed_set or not (0 <= p < size) or (p in queued and better(queued[p], v)):
@@ -228,6 +235,7 @@ def generate(rng, tier, idx):
     if rng.random() < 0.02:
         size = int(rng.choice([256, 257, 258, 300]))          # capacities around CPython's small-int cache
     policy = "min" if rng.random() < 0.5 else "max"
+    policy0 = policy
     draw = _cost_source(rng, policy)
     cost_type = None
     if rng.random() < 0.06:
@@ -266,6 +274,10 @@ def generate(rng, tier, idx):
         if len(queued) == size and rng.random() < 0.15:
             ops.append(["ins_full", int(rng.integers(0, size))])
             continue
+        if refill and not queued and ops and rng.random() < 0.35:
+            policy = "max" if policy == "min" else "min"
+            sign = -sign
+            ops.append(["policy", policy])
         if refill and not queued and again and rng.random() < 0.8:
             for p in list(again)[::-1] if rng.random() < 0.5 else list(again):
                 v = draw()
@@ -328,7 +340,7 @@ def generate(rng, tier, idx):
     if size >= 256:
         # make sure the big heap gets full at least once
         ops = [["ins", int(p), float(rng.integers(0, 5))] for p in range(size)] + [["ins_full", 0], ["rem"], ["rem"]]
-    return {"size": size, "policy": policy, "ops": ops, "via_setter": bool(rng.random() < 0.2), "cost_type": cost_type}
+    return {"size": size, "policy": policy0, "ops": ops, "via_setter": bool(rng.random() < 0.2), "cost_type": cost_type}
 
 
 def check(case):
